@@ -47,7 +47,7 @@ ASSUMPTIONS = [
     "survivor order is judged only for remove_out_of_bounds_particles; the other filters are judged as multisets of rows",
 ]
 
-CLASSES = ["oob_center_faces", "oob_whole_odd", "oob_whole_even", "oob_upper_only", "oob_multi_tomo", "oob_far", "oob_single",
+CLASSES = ["oob_center_faces", "oob_whole_odd", "oob_whole_even", "oob_upper_only", "oob_multi_tomo", "oob_far", "oob_single", "oob_shared_dims",
            "trim_faces", "trim_random", "dist_near", "dist_cross_tomo", "dist_shifted", "dist_exact_tie",
            "mask_inside", "mask_outside", "mask_files_multi", "mask_single_partial"]
 KEY = "oob-lower-face"
@@ -57,15 +57,15 @@ FACE = [-1.0, -0.125, 0.0, 0.125, 1.0]
 
 def plan(tier):
     if tier == "quick":
-        return dict(n_cases=680, shards=2, classes=CLASSES, timeout_s=600,
+        return dict(n_cases=720, shards=2, classes=CLASSES, timeout_s=600,
                     min_evals={"oob_upper_survivors": 480, "oob_lower": 480, "trim_exact": 200, "dist_exact": 330,
                                "mask_exact": 400, "oob_repr_invariance": 240, "trim_compose": 70,
-                               "dist_union_monotone": 60, "mask_complement": 85, "dist_exact_ties_removed": 40},
+                               "dist_union_monotone": 60, "mask_complement": 85, "dist_exact_ties_removed": 40, "dims_unchanged": 280},
                     min_known={"oob-lower-face": 50})
-    return dict(n_cases=9520, shards=16, classes=CLASSES, timeout_s=3000,
+    return dict(n_cases=9540, shards=16, classes=CLASSES, timeout_s=3000,
                 min_evals={"oob_upper_survivors": 6900, "oob_lower": 6900, "trim_exact": 2900, "dist_exact": 4600,
                            "mask_exact": 5600, "oob_repr_invariance": 3400, "trim_compose": 950,
-                           "dist_union_monotone": 850, "mask_complement": 1200, "dist_exact_ties_removed": 600},
+                           "dist_union_monotone": 850, "mask_complement": 1200, "dist_exact_ties_removed": 600, "dims_unchanged": 3500},
                 min_known={"oob-lower-face": 500})
 
 
@@ -116,12 +116,25 @@ def judge_set(ctx, name, exp, keep, out_df, explain=None, ordered=False, what=""
 
 
 # ---- call monitor: remove_out_of_bounds_particles ---------------------------------------------------
+_PRISTINE = {}      # id(dimensions object handed over by the driver) -> (object, ids, dims, values) copied BEFORE its first use
+
+
+def register_dims(obj):
+    ids, dims = O.parse_dims(obj)
+    _PRISTINE[id(obj)] = (obj, ids.copy(), dims.copy(), obj.to_numpy(dtype=np.float64).copy())
+    return _PRISTINE[id(obj)]
+
+
 def _oob_app(A):
     arr = O.table(getattr(A["self"], "df", None))
     if not O.geometry_finite(arr) or len(arr) < 1:
         return False
     b = O.half_box(A["boundary_type"], A["box_size"])
-    pd_ = O.parse_dims(A["dimensions"])
+    reg = _PRISTINE.get(id(A["dimensions"]))
+    if reg is not None and reg[0] is A["dimensions"]:
+        pd_ = (reg[1], reg[2])            # a table the driver re-uses: judged against the values it had when first handed over
+    else:
+        pd_ = O.parse_dims(A["dimensions"])
     if b is None or pd_ is None:
         return False
     e = O.oob_expected(arr, pd_[0], pd_[1], b)
@@ -303,7 +316,7 @@ def setup(ctx):
     f_trim = monitors.wrap(ctx, M, "adapt_to_trimming", "trim_exact", _trim_post, _trim_app, _oob_snap)
     f_dist = monitors.wrap(ctx, M, "clean_by_distance_to_points", "dist_exact", _dist_post, _dist_app, _oob_snap)
     f_mask = monitors.wrap(ctx, M, "clean_by_tomo_mask", "mask_exact", _mask_post, _mask_app, _oob_snap)
-    ctx.declare("oob_lower", "oob_repr_invariance", "trim_compose", "dist_union_monotone", "mask_complement", "dist_exact_ties_removed")
+    ctx.declare("dims_unchanged", "oob_lower", "oob_repr_invariance", "trim_compose", "dist_union_monotone", "mask_complement", "dist_exact_ties_removed")
     monitors.trace(ctx, [
         ("Motl.remove_out_of_bounds_particles", f_oob, {"whole": "boundary = ceil(box_size / 2)", "center": "boundary = 0",
                                                         "particle_kept": "idx_list.append(i)"}),
@@ -340,10 +353,12 @@ def n_particles(ctx, rng, lo=1, hi=36):
     return int(rng.integers(lo, hi + 1))
 
 
-def base_table(rng, n, k):
+def base_table(rng, n, k, tl=None):
     df = gens.motl_table(rng, n, tomos=1, pos_scale=100.0)
-    tl = np.sort(rng.choice(np.arange(1, 90), size=k, replace=False)).astype(float)
-    rng.shuffle(tl)
+    if tl is None:
+        tl = np.sort(rng.choice(np.arange(1, 90), size=k, replace=False)).astype(float)
+        rng.shuffle(tl)
+    tl = np.asarray(tl, dtype=float)
     a = np.concatenate([np.arange(min(k, n)), rng.integers(0, k, max(0, n - k))])
     rng.shuffle(a)
     df["tomo_id"] = tl[a]
@@ -387,9 +402,19 @@ def gen_oob(ctx, rng, cls, i):
     n = n_particles(ctx, rng)
     if cls == "oob_single":
         n = 1 if rng.random() < 0.5 else int(rng.integers(2, 10))
-    df, tl = base_table(rng, n, k)
+    pool = None
+    if cls == "oob_shared_dims":          # dimensions come from one of the shard's long-lived tables
+        pool = int(rng.integers(0, POOL))
+        pids, pdims = pool_spec(ctx, pool)
+        sel = rng.permutation(len(pids))[:k]
+        df, tl = base_table(rng, n, k, tl=pids[sel])
+    else:
+        df, tl = base_table(rng, n, k)
     dims = np.zeros((k, 3))
     for t in range(k):
+        if pool is not None:
+            dims[t] = pdims[sel[t]]
+            continue
         for a in range(3):
             if cls == "oob_multi_tomo" or rng.random() < 0.5:
                 dims[t, a] = rng.integers(2 * b + 6, 2 * b + 22) if rng.random() < 0.5 else rng.integers(70, 130)
@@ -439,15 +464,21 @@ def gen_oob(ctx, rng, cls, i):
     ext_ids = [float(v) for v in rng.choice(np.arange(100, 140), extra_rows, replace=False)]
     all_ids = np.concatenate([tl, ext_ids])
     all_dims = np.vstack([dims] + [rng.integers(10, 140, (1, 3)).astype(float) for _ in ext_ids])
+    # one dimensions DataFrame object re-used over several calls: a 'whole' call first, then the case's own setting
+    first_box = box if mode == "whole" else int(rng.choice([2, 4, 5, 8, 11]))
+    seq = [("whole", first_box), (mode, box)]
+    if pool is not None:
+        seq = [("whole", first_box), ("center", None), (mode, box), ("whole", int(rng.choice([3, 6, 10])))]
     p1, p2 = rng.permutation(len(all_ids)), rng.permutation(len(all_ids))
     arr = O.table(df)
     lo, up, _, _ = O.oob_expected(arr, tl, dims, b)
     case = dict(kind="oob", df=df, mode=mode, box=box, b=b, ids=all_ids, dims=all_dims, perm=(p1, p2), reprs=(r1, r2),
-                kw=bool(rng.integers(0, 2)), exp_kept=int((lo & up).sum()), n=n)
+                kw=bool(rng.integers(0, 2)), exp_kept=int((lo & up).sum()), n=n, pool=pool, seq=seq)
     case["summary"] = {"filter": "remove_out_of_bounds_particles", "n": n, "tomograms": k, "boundary_type": mode, "box_size": box,
                        "dims": {str(t): d.tolist() for t, d in zip(tl, dims)}, "dims_repr": [r1, r2], "extra_dim_rows": extra_rows,
                        "expected_kept": case["exp_kept"], "lower_face_only_failures": int((~lo & up).sum()),
-                       "upper_failures": int((~up).sum()), "positions_head": head(arr)}
+                       "upper_failures": int((~up).sum()), "positions_head": head(arr),
+                       "shared_table": pool, "reuse_sequence": [list(v) for v in seq]}
     return case
 
 
@@ -475,7 +506,68 @@ def dims_object(ctx, case, which, tag):
     return path
 
 
+POOL = 3
+
+
+def pool_spec(ctx, p):
+    """ids and dimensions of the shard's p-th long-lived dimensions table (pure function of the seed)."""
+    rng = ctx.rng(10 ** 6 + 10 + p)
+    ids = np.sort(rng.choice(np.arange(1, 90), size=4, replace=False)).astype(float)
+    dims = rng.integers(40, 130, (4, 3)).astype(float)
+    dims[:, 1] += (dims[:, 1] == dims[:, 0]) * 3
+    dims[:, 2] += (dims[:, 2] == dims[:, 1]) * 5
+    return ids[rng.permutation(4)], dims
+
+
+def pool_table(ctx, p):
+    tabs = ctx.__dict__.setdefault("c09_pool", {})
+    if p not in tabs:
+        ids, dims = pool_spec(ctx, p)
+        a = np.column_stack([ids, dims])
+        tabs[p] = pd.DataFrame(a, columns=["tomo_id", "x", "y", "z"]) if p % 2 == 0 else pd.DataFrame(a)
+        register_dims(tabs[p])
+    return tabs[p]
+
+
+def run_oob_reuse(ctx, case):
+    """Several calls that share ONE dimensions DataFrame object; every call is judged (by the call monitors) against the
+    table's original values, and the table must still equal its pristine copy afterwards."""
+    cm = ctx.cm
+    if case["pool"] is not None:
+        D = pool_table(ctx, case["pool"])
+    else:
+        a = np.column_stack([case["ids"][case["perm"][0]], case["dims"][case["perm"][0]]])
+        D = pd.DataFrame(a, columns=["tomo_id", "x", "y", "z"]) if (case["i"] // len(CLASSES)) % 4 == 0 else pd.DataFrame(a)
+        register_dims(D)
+    pristine = _PRISTINE[id(D)][3]
+    try:
+        for step, (mode, box) in enumerate(case["seq"]):
+            ok, m = ctx.call("Motl(df)", cm.Motl, case["df"].copy())
+            if not ok:
+                return
+            ok, _ = ctx.call("remove_out_of_bounds_particles", m.remove_out_of_bounds_particles, D, mode, box)
+            now = None
+            try:
+                now = D.to_numpy(dtype=np.float64)
+            except Exception:
+                pass
+            same = now is not None and now.shape == pristine.shape and np.array_equal(now, pristine)
+            w = None
+            if not same:
+                w = {"call": "remove_out_of_bounds_particles(<DataFrame>, %r, %r)" % (mode, box), "step_in_sequence": step,
+                     "shared_table": case["pool"], "table_before_first_use": pristine[:4].tolist(),
+                     "table_now": now[:4].tolist() if now is not None else None}
+            ctx.check("dims_unchanged", same, w)
+            if not ok:
+                return
+    finally:
+        if case["pool"] is None:
+            _PRISTINE.pop(id(D), None)
+
+
 def run_oob(ctx, case):
+    if case["pool"] is not None or (case["i"] // len(CLASSES)) % 2 == 0:
+        run_oob_reuse(ctx, case)
     cm = ctx.cm
     rng = ctx.rng(case["i"], 1)
     got = []
@@ -779,11 +871,13 @@ def gen_mask(ctx, rng, cls, i):
     return case
 
 
-def mask_object(ctx, m, storage, tag):
+def mask_object(ctx, m, storage, slot):
+    """Mask files live in a small pool of RE-USED paths (slot = position in the call's mask list): the same path is
+    rewritten with other content by later calls of the same case and by later cases."""
     if storage in ("f8", "f4", "i1", "u1", "i8"):
         return m.astype({"f8": np.float64, "f4": np.float32, "i1": np.int8, "u1": np.uint8, "i8": np.int64}[storage])
     kind, dt = storage.split("_")
-    path = os.path.join(ctx.scratch, "mask_%s.%s" % (tag, kind))
+    path = os.path.join(ctx.scratch, "maskpool_%d.%s" % (slot, kind))
     if kind == "mrc":
         files.write_mrc_raw(path, m, mode=2 if dt == "f4" else 0)
     else:
@@ -813,15 +907,9 @@ def run_mask(ctx, case):
         ok, m = ctx.call("Motl(df)", cm.Motl, case["df"].copy())
         if not ok:
             return None
-        objs = [mask_object(ctx, mm, st, "%d_%s_%d" % (case["i"], tag, j)) for j, (mm, st) in enumerate(zip(masks, storage))]
+        objs = [mask_object(ctx, mm, st, j) for j, (mm, st) in enumerate(zip(masks, storage))]
         arg = objs[0] if case["single"] else objs
         ok, res = ctx.call("clean_by_tomo_mask", m.clean_by_tomo_mask, tl, arg, inplace=inplace, output_file=out_file)
-        for o in objs:
-            if isinstance(o, str):
-                try:
-                    os.remove(o)
-                except OSError:
-                    pass
         if not ok:
             return None
         out = m.df if inplace else res.df
@@ -829,8 +917,10 @@ def run_mask(ctx, case):
 
     of = os.path.join(ctx.scratch, "mask_out_%d.em" % case["i"]) if case["out_file"] else None
     R = removed_by(case["masks"], case["storage"], case["inplace"], "m", of)
-    if R is None or case["i"] % 3 == 2:
+    on_disk = any("_" in st for st in case["storage"])
+    if R is None or (case["i"] % 3 == 2 and not on_disk):
         return
+    # the complement is written to the SAME paths (call, rewrite the file, call again)
     arrs = ["f8"] * len(case["masks"])
     Rc = removed_by([1 - m for m in case["masks"]], case["storage"], not case["inplace"], "c")
     R0 = removed_by([np.zeros_like(m) for m in case["masks"]], arrs, False, "z")
